@@ -995,6 +995,9 @@ class TemplateModel(object):
             n_pcs = 3
             features = np.zeros((ns, nc, n_pcs), dtype=np.float32)
             spike_ids_exist = np.intersect1d(spike_ids, self.spike_waveforms.spike_ids)
+            if len(spike_ids_exist) == 0:
+                # None of the requested spikes has an extracted waveform.
+                return features
             # Compute PCs from the waveforms for the spikes that are in spike_waveforms.spike_ids.
             waveforms = self.get_waveforms(spike_ids_exist, channel_ids)
             features_existing = compute_features(waveforms)
